@@ -103,8 +103,16 @@ def sector_charges(rng, qd, Ds, q0, q1, mpo=False, order='random', dead=0.15):
     return out
 
 
-def _fix_entries(x, entries):
+def _fix_entries(x, entries, rng=None):
+    sites = None
+    if entries == 'sites':
+        # every site tensor gets its own entry kind (a real first site followed by complex ones, ...)
+        sites = [('real', 'complex', 'int')[int(k)] for k in (rng.choice(3, size=len(x.A), p=[0.45, 0.45, 0.1]) if rng is not None else [i % 2 for i in range(len(x.A))])]
+        if len(sites) >= 2 and len(set(sites)) == 1:
+            sites[0] = 'real'; sites[-1] = 'complex'
     for i in range(len(x.A)):
+        if sites is not None:
+            entries = sites[i]
         if entries == 'real':
             x.A[i] = x.A[i].real.copy()
         elif entries == 'int':
@@ -115,13 +123,13 @@ def _fix_entries(x, entries):
 def rand_mps(rng, qd, L, Dmax, q0, q1, entries='complex', bstyle='random', order='random', dead=0.15):
     Ds = bond_dims(rng, L, Dmax, bstyle)
     qD = sector_charges(rng, qd, Ds, q0, q1, False, order, dead)
-    return _fix_entries(ptn.MPS(list(qd), qD, fill='random', rng=rng), entries)
+    return _fix_entries(ptn.MPS(list(qd), qD, fill='random', rng=rng), entries, rng)
 
 
 def rand_mpo(rng, qd, L, Dmax, q0, q1, entries='complex', bstyle='random', order='random', dead=0.15):
     Ds = bond_dims(rng, L, Dmax, bstyle)
     qD = sector_charges(rng, qd, Ds, q0, q1, True, order, dead)
-    return _fix_entries(ptn.MPO(list(qd), qD, fill='random', rng=rng), entries)
+    return _fix_entries(ptn.MPO(list(qd), qD, fill='random', rng=rng), entries, rng)
 
 
 def nontrivial(*objs):
